@@ -19,7 +19,8 @@ RULE = ("cases = schema trees T x subsets M of their nodes replaced by a forward
         "classes); non-trivial = >=1 wrapped node below the root or nesting.")
 ASSUMPTIONS = ["a union directly inside a union is not wrapped (a wrapped any is not flattened at declaration: harness artefact)",
                "the forwarding type passes path/indent/value/**kwargs through unchanged"]
-TIERS = {"quick": dict(shards=16, cases=3000), "thorough": dict(shards=16, cases=50000)}
+REACH_FILES = ['d42/custom_type/_custom_type.py']
+TIERS = {"quick": dict(shards=16, cases=5000), "thorough": dict(shards=16, cases=50000)}
 
 PROF = Profile(max_depth=3, p_unsat=0.02, p_empty_alphabet=0.0)
 
